@@ -158,6 +158,22 @@ func (c *Ctx) outputRules(r *Report) {
 				r.Fail("OUT-gate", c.fname(pe), what, c.ipos(in), "printError writes to something other than os.Stdout/os.Stderr: "+trunc(ot, 60))
 			}
 		}
+		// the text written is the error's text: a printf-style write takes a constant format (the error text
+		// echoes user tokens, so used as a format its `%` sequences are re-interpreted), and the error (or its
+		// Error() text) is among the operands written
+		if c.calleeName(ci.Common()) == "fmt.Fprintf" && len(ci.Common().Args) > 1 {
+			_, isConst := ci.Common().Args[1].(*ssa.Const)
+			r.Check(isConst, "OUT-gate", c.fname(pe), "format string of the write is a constant", c.ipos(in), "constant format", "the format is "+trunc(c.term(ci.Common().Args[1]), 80)+": the error text echoes command-line tokens, so any `%` in it is mangled")
+		}
+		if ops, ok := varargOperands(c, ci.Common().Args[len(ci.Common().Args)-1]); ok {
+			found := false
+			for _, o := range ops {
+				if o == "P1" || strings.HasPrefix(o, "call:invoke:error.Error(P1") || strings.HasPrefix(o, "call:(*Error).Error(") {
+					found = true
+				}
+			}
+			r.Check(found, "OUT-gate", c.fname(pe), "the error is among the operands written", c.ipos(in), "err or err.Error() is written", "operands written: "+trunc(strings.Join(ops, ", "), 100))
+		}
 	}
 	// wrapError turns a foreign error into ErrUnknown: it is reserved for the errors of option parsing in the
 	// argument loop (already typed there); every other conversion failure is typed ErrMarshal by marshalError
